@@ -1098,6 +1098,90 @@ func execRace(bases []string, cls []ext, hold bool) (obs string) {
 	return strings.Join(order, " ") + " L=" + lookRes(reg.LookupByHost(d))
 }
 
+// ---------------------------------------------------------------- late / duplicate UnregisterByMappingID around a re-claim
+//
+//	c19u bases k … old <ext> new <ext> third <ext> round j
+//
+// Mapping `old` owns the name.  Two UnregisterByMappingID(old.id) calls (a retried DELETE /mappings/{id}) and one
+// Register(new) for the same name start at the same moment (barrier = the registry's write lock, so all three sit at
+// their first lock acquisition); afterwards, sequentially: LookupByHost, Register(third), LookupByHost.
+// obs: "S=<setup>" then "U1=ok" "U2=ok" "R=<res>" in order of return, then "L=…" "R3=…" "L2=…".
+
+func uraceCase(bases []string, old, nw, third ext, round int) string {
+	return fmt.Sprintf("c19u %s old %s new %s third %s round %d", basesStr(bases), old.String(), nw.String(), third.String(), round)
+}
+
+func parseURace(toks []string) ([]string, ext, ext, ext, error) {
+	r := &tokReader{toks: toks}
+	r.expect("c19u")
+	bases := parseBases(r)
+	var es [3]ext
+	for i, kw := range []string{"old", "new", "third"} {
+		r.expect(kw)
+		e, err := parseExt(r.next())
+		if err != nil {
+			return nil, ext{}, ext{}, ext{}, err
+		}
+		es[i] = e
+	}
+	r.expect("round")
+	r.num()
+	if r.err != nil || r.i != len(toks) {
+		return nil, ext{}, ext{}, ext{}, fmt.Errorf("bad c19u case")
+	}
+	return bases, es[0], es[1], es[2], nil
+}
+
+func execURace(bases []string, old, nw, third ext) string {
+	reg := httpservice.NewDomainRegistry(bases)
+	setup := regRes(reg.Register(old.portMapping()))
+	var ticket int64
+	order := make([]string, 3)
+	var ready, done sync.WaitGroup
+	start := make(chan struct{})
+	reg.VerifHoldWrite()
+	run := func(name string, f func() string) {
+		ready.Add(1)
+		done.Add(1)
+		go func() {
+			defer done.Done()
+			res := "panic"
+			defer func() {
+				if r := recover(); r != nil {
+					res = "panic:" + strings.ReplaceAll(fmt.Sprint(r), " ", "_")
+				}
+				k := atomic.AddInt64(&ticket, 1)
+				order[k-1] = name + "=" + res
+			}()
+			ready.Done()
+			<-start
+			res = f()
+		}()
+	}
+	run("U1", func() string { reg.UnregisterByMappingID(old.id); return "ok" })
+	run("U2", func() string { reg.UnregisterByMappingID(old.id); return "ok" })
+	run("R", func() string { return regRes(reg.Register(nw.portMapping())) })
+	ready.Wait()
+	close(start)
+	for k := 0; k < 50; k++ {
+		runtime.Gosched()
+	}
+	time.Sleep(200 * time.Microsecond)
+	reg.VerifReleaseWrite()
+	fin := make(chan struct{})
+	go func() { done.Wait(); close(fin) }()
+	select {
+	case <-fin:
+	case <-time.After(slotTimeout):
+		return "timeout"
+	}
+	d := old.sub + "." + old.base
+	l1 := lookRes(reg.LookupByHost(d + ":443"))
+	r3 := regRes(reg.Register(third.portMapping()))
+	l2 := lookRes(reg.LookupByHost(d))
+	return "S=" + setup + " " + strings.Join(order, " ") + " L=" + l1 + " R3=" + r3 + " L2=" + l2
+}
+
 // ---------------------------------------------------------------- main
 
 func emit(out *vc.Out, key string, c *tcase, kind string) {
@@ -1167,6 +1251,19 @@ func replayFile(out *vc.Out, path string) {
 			}
 			out.Count("kind:registry-seq")
 			out.Case(cs, obs, cs)
+			continue
+		}
+		if strings.HasPrefix(line, "c19u ") {
+			bases, old, nw, third, err := parseURace(strings.Fields(line))
+			if err != nil {
+				fmt.Fprintln(os.Stderr, "bad corpus line:", err)
+				os.Exit(3)
+			}
+			cs := strings.Join(strings.Fields(line), " ")
+			for k := 0; k < 300; k++ {
+				out.Count("kind:registry-late-unregister")
+				out.Case(cs, execURace(bases, old, nw, third), "")
+			}
 			continue
 		}
 		if strings.HasPrefix(line, "c19r ") {
